@@ -32,7 +32,7 @@ func c15Configs() []*cfg.Config {
 		{Meta: meta(), Params: []cfg.KV{{K: "p0", V: S(`%todo("")%`)}, {K: "p1", V: cfg.Bool(true)}},
 			Services: []cfg.Service{{Name: "s0", Constructor: cfg.P("pa.New"), Tags: []cfg.Tag{{Name: "t"}}}, {Name: "s1", Constructor: cfg.P("pa.New"), Args: []cfg.Val{S("!tagged t"), S("%p1%")}}},
 			Decorators: []cfg.Decorator{{Tag: "t", Decorator: "pa.DecSame", Args: []cfg.Val{S("%p0%")}}}},
-		{Meta: meta(), Params: []cfg.KV{{K: "p0", V: S(`%todo("not yet")%`)}, {K: "p1", V: S("%p0%:8080")}},
+		{Meta: meta(), Params: []cfg.KV{{K: "p0", V: S(`%todo("not  yet.  Ask ops,\tthen retry ")%`)}, {K: "p1", V: S("%p0%:8080")}},
 			Services: []cfg.Service{{Name: "s0", Constructor: cfg.P("pa.New"), Args: []cfg.Val{S("a%p1%b"), S("%p0%%p0%-%fnint()%")}}, {Name: "s1", Constructor: cfg.P("pa.New"), Args: []cfg.Val{S("@s0"), S("%p0%-%p1%")},
 				Fields: []cfg.KV{{K: "F2", V: S("%%%p0%%%x")}}}}},
 		{Meta: meta(), Params: []cfg.KV{{K: "p0", V: S("%todo()%")}, {K: "p1", V: cfg.Int(1)}},
